@@ -457,7 +457,7 @@ def _execute_history(sc, out, steps):
                 out.probe("exactly 12h apart")
             # (5) :last / :first
             mine = [r for r in runs if r["group"] == g]
-            for pref in sorted({name[:4], name[:10], name[:13], name[:19]}):
+            for pref in sorted({"", name[:4], name[:10], name[:13], name[:19]}):  # "": the bare form $g.results.:last.<id>
                 cand = [r for r in mine if os.path.basename(r["dir"]).startswith(pref)]
                 if not cand or len({r["epoch"] for r in cand}) != 1:
                     continue
